@@ -220,6 +220,11 @@ CheckOp(ev) ==
                 \cup (IF "relc" \in DOMAIN ev.st /\ SetOf(ev.st.relc) # w.rel
                       THEN {V(IF rejected THEN (IF lockMis THEN "C07.effect-after-panic" ELSE "C10.state-changed") ELSE "C18.id-unstable",
                               <<ev.op, "relation components", ev.st.relc>>)} ELSE {})
+        \* C18: a resource type always maps to the same id (also across Reset and for handles created earlier)
+        vResId == IF "resid" \in DOMAIN ev.st /\ Fn(ev.st.resid) # Fn(ev.st.resid0)
+                  THEN {V("C18.id-unstable", <<ev.op, "resource ids", ev.st.resid, ev.st.resid0>>)}
+                       \cup (IF ev.op = "Reset" THEN {V("C16.diverge", <<"resource ids", ev.st.resid>>)} ELSE {})
+                  ELSE {}
         vPanic ==
             IF x.pre /\ ev.panic
             THEN (IF ev.op \in {"QOpen", "QNext", "QClose", "DumpLoad"} THEN {}
@@ -381,7 +386,7 @@ CheckOp(ev) ==
        THEN [def |-> TRUE, next |-> w, vs |-> {V("C02.no-new-handle", <<ev.op, ev.ret>>)}]
        ELSE
        [def |-> x.def, next |-> exp,
-        vs |-> IF x.def THEN vPanic \cup vDup \cup vAlive \cup vCount \cup vEnt \cup vLock \cup vCb \cup vC08 \cup vC09 \cup vQ \cup vShr \cup vDump \cup vRes \cup vReg \cup vOld ELSE {}]
+        vs |-> IF x.def THEN vPanic \cup vDup \cup vAlive \cup vCount \cup vEnt \cup vLock \cup vCb \cup vC08 \cup vC09 \cup vQ \cup vShr \cup vDump \cup vRes \cup vReg \cup vOld \cup vResId ELSE {}]
 
 (***************************************************************************)
 (* Probes: a query / Count / EntityAt battery run by the executor.         *)
